@@ -55,5 +55,44 @@ def main():
     sys.exit(1 if fails else 0)
 
 
+def main_feeders():
+    """several network feeders on one node (two ext_grid rows at a bus; ext_grids on buses fused by a bus-bus switch): the fault at that node
+    sees the feeders in parallel -- compared with hand-computed IEC 60909 feeder impedances Z = c Un^2 / S''k, R / X = rx"""
+    import numpy as np
+    import pandapower as pp
+    import pandapower.shortcircuit as sc
+    fails = []
+    feeders = [(1000., 0.1, 800., 0.2), (400., 0.3, 250., 0.35)]
+    for layout in ("same bus", "fused buses"):
+        for case in ("max", "min"):
+            net = pp.create_empty_network()
+            b0 = pp.create_bus(net, 20.)
+            b1 = pp.create_bus(net, 20.) if layout == "fused buses" else b0
+            if b1 != b0:
+                pp.create_switch(net, b0, b1, et="b", closed=True)
+            far = pp.create_bus(net, 20.)
+            pp.create_line_from_parameters(net, b0, far, 4., 0.2, 0.3, 100., 0.4, endtemp_degree=80.)
+            for bus, (smax, rxmax, smin, rxmin) in zip((b0, b1), feeders):
+                pp.create_ext_grid(net, bus, s_sc_max_mva=smax, rx_max=rxmax, s_sc_min_mva=smin, rx_min=rxmin)
+            c = 1.1 if case == "max" else 1.0
+            y = 0.
+            for smax, rxmax, smin, rxmin in feeders:
+                s_sc, rx = (smax, rxmax) if case == "max" else (smin, rxmin)
+                zabs = c * 20. ** 2 / s_sc
+                x = zabs / np.sqrt(rx ** 2 + 1)
+                y += 1 / (rx * x + 1j * x)
+            want = abs(c * 20. / (np.sqrt(3) * abs(1 / y)))
+            for inv in (True, False):
+                sc.calc_sc(net, case=case, inverse_y=inv, bus=[b0])
+                got = net.res_bus_sc.ikss_ka.at[b0]
+                if not np.isclose(got, want, rtol=1e-6):
+                    fails.append(f"{layout}, case {case}, inverse_y={inv}: ikss at the feeder node = {got:.5f} kA, two parallel feeders give {want:.5f} kA")
+    for f in fails:
+        print("REPRODUCED:", f)
+    if not fails:
+        print("not reproduced: parallel network feeders add their admittances")
+    sys.exit(1 if fails else 0)
+
+
 if __name__ == "__main__":
     main()
